@@ -9,16 +9,17 @@
     interpreter != spec, compiled != spec (hence interpreter != compiled) on a vector inside the domain is a VIOLATION,
     except the exact signatures listed in known_findings.json.
 Python is glue: it chooses random inputs, renders values and decodes output text; it computes no expected result."""
-import json, os, random, shutil, concurrent.futures as cf
+import json, os, random, re, shutil, concurrent.futures as cf
 from .. import build, tlc, known, functorvec as fv
 from ..common import SPEC, workdir, seed, Result, write_data, log, NCPU
 from ..common import run as sh
 from ..evidence import finish
 
 PID = "C24"
-FAMILIES = ["signed", "unsigned", "float", "symbol"]
+FAMILIES = ["signed", "unsigned", "float", "symbol", "frange"]     # one souffle program (compilation unit) each
 K_TOSTRING = "compiled-to_string-ignores-type"
 K_NEGZERO = "compiled-negative-zero-literal"
+K_FRANGE = "compiled-float-range-arguments-not-bitcast"
 
 def cj(x):
     return json.dumps(x, separators=(",", ":"))
@@ -38,6 +39,8 @@ def spec_vectors(wd, tier, res, per_op):
         return None, r
     res.add_tlc(r)
     vecs = [j for j in r["json"] if isinstance(j, dict) and "op" in j]
+    with open(os.path.join(d, "vectors.json"), "w") as f:          # what TLC said, kept for inspection
+        json.dump(sorted(vecs, key=lambda v: (v["op"], len(v["a"]), cj(v["a"]))), f)
     return vecs, r
 
 def plan(vecs, tier, res):
@@ -93,24 +96,35 @@ def write_family(wd, fam, units):
                    [(u["op"], u["arity"], [(i["id"], i["v"]["a"]) for i in u["inst"] if i["path"] == "file"]) for u in units])
     return d, dl
 
+RUN_LIMIT = {"frange": 30}      # seconds; a float range that does not stop is a deviation, not an infrastructure problem
+
 def run_backend(job):
     """-> (family, backend, out dir or None, error text)"""
-    fam, backend, d, dl = job
+    fam, backend, d, dl, facts = job
     out = os.path.join(d, "out_" + backend)
     shutil.rmtree(out, ignore_errors=True); os.makedirs(out)
-    facts = os.path.join(d, "facts")
+    limit = RUN_LIMIT.get(fam, 900)
     if backend == "interpreter":
-        rc, so, se = sh([build.SOUFFLE, "-F", facts, "-D", out, dl], timeout=1800)
+        rc, so, se = sh([build.SOUFFLE, "-F", facts, "-D", out, dl], timeout=limit + 60)
     else:
         exe = os.path.join(d, fam + ".exe")
         rc, so, se = sh([build.SOUFFLE, "-o", exe, dl], timeout=3000, env=build.env())
         if rc != 0 or not os.path.exists(exe):
             return fam, backend, None, "souffle -o failed rc=%s: %s" % (rc, se[-1500:])
-        rc, so, se = sh([exe, "-F", facts, "-D", out], timeout=1800)
+        rc, so, se = sh([exe, "-F", facts, "-D", out], timeout=limit)
     if rc != 0:
-        return fam, backend, None, "%s run failed rc=%s: %s" % (backend, rc, "\n".join(
+        return fam, backend, None, "%s run %s: %s" % (backend, "did not finish within %d s" % limit if rc == -999 else
+                                                      "failed rc=%s" % rc, "\n".join(
             l for l in se.splitlines() if not l.startswith("warning: wrong index position"))[-1500:])
     return fam, backend, out, None
+
+def frange_args_not_bitcast(d):
+    """The defect's mechanical signature: the generated C++ hands raw RamDomain tuple elements to runRange<RamFloat>."""
+    cpp = os.path.join(d, "frange.exe.cpp")
+    if not os.path.exists(cpp):
+        return False
+    with open(cpp, errors="replace") as f:
+        return re.search(r"runRange<RamFloat>\((?!ramBitCast)", f.read()) is not None
 
 def judge_instance(u, inst, rows):
     """Compare the rows a back-end produced for one instance with the spec.  -> (verdict, detail) with verdict in
@@ -134,9 +148,11 @@ def judge_instance(u, inst, rows):
         return "result", {"values": got}
     return "ok", {"values": got}
 
-def classify(u, inst, backend, verdict, detail, other_ok):
+def classify(u, inst, backend, verdict, detail, other_ok, ctx):
     """Signature of the known findings; None = not a known finding."""
     v = inst["v"]
+    if backend == "compiled" and u["op"] == "FRANGE" and other_ok and ctx.get("frange_args_not_bitcast"):
+        return K_FRANGE
     if backend == "compiled" and verdict == "result" and u["op"] in ("U2S", "F2S") and v["alt"] and other_ok \
             and detail.get("values") == [v["alt"][0]] and v["alt"][0] != v["r"][0]:
         return K_TOSTRING
@@ -168,19 +184,29 @@ def execute(res, wd, fams, tier):
         d, dl = write_family(wd, fam, fams[fam])
         dirs[fam] = (d, dl)
         for backend in ("compiled", "interpreter"):
-            jobs.append((fam, backend, d, dl))
+            jobs.append((fam, backend, d, dl, os.path.join(d, "facts")))
     outs = {}
-    with cf.ThreadPoolExecutor(max(2, min(8, NCPU // 2))) as pool:
-        for fam, backend, out, err in pool.map(run_backend, jobs):
-            if err:
-                rp = os.path.join(dirs[fam][0], "replay_%s.json" % backend)
-                with open(rp, "w") as f:
-                    json.dump({"property": PID, "kind": "run", "family": fam, "backend": backend, "dl": dirs[fam][1],
-                               "facts": os.path.join(dirs[fam][0], "facts"), "error": err}, f, indent=1)
-                res.violations.append(("[%s] the %s program (only vectors inside the defined domain) did not run: %s"
-                                       % (backend, fam, err), rp))
-            outs[(fam, backend)] = out
     kf = known.load()
+    ctx = {}
+    frange_stuck = None
+    with cf.ThreadPoolExecutor(max(2, min(10, NCPU // 2))) as pool:
+        results = list(pool.map(run_backend, jobs))
+    if "frange" in dirs:
+        ctx["frange_args_not_bitcast"] = frange_args_not_bitcast(dirs["frange"][0])
+    for fam, backend, out, err in results:
+        if err and fam == "frange" and backend == "compiled" and "did not finish" in err and \
+                ctx.get("frange_args_not_bitcast") and known.is_listed(kf, PID, K_FRANGE):
+            frange_stuck = err          # judged below, once the interpreter's rows are known to equal the spec
+            outs[(fam, backend)] = None
+            continue
+        if err:
+            rp = os.path.join(dirs[fam][0], "replay_%s.json" % backend)
+            with open(rp, "w") as f:
+                json.dump({"property": PID, "kind": "run", "family": fam, "backend": backend, "dl": dirs[fam][1],
+                           "facts": os.path.join(dirs[fam][0], "facts"), "error": err}, f, indent=1)
+            res.violations.append(("[%s] the %s program (only vectors inside the defined domain) did not run: %s"
+                                   % (backend, fam, err), rp))
+        outs[(fam, backend)] = out
     bad = {}            # (backend, op, arity, verdict) -> examples
     known_hits = {}
     judged = 0
@@ -222,7 +248,7 @@ def execute(res, wd, fams, tier):
                     ex = {"op": u["op"], "args": inst["v"]["a"], "input_path": inst["path"], "id": inst["id"],
                           "spec": inst["v"]["r"], backend: detail,
                           other: verdicts[other][1] if other in verdicts else None}
-                    fid = classify(u, inst, backend, verdict, detail, other_ok)
+                    fid = classify(u, inst, backend, verdict, detail, other_ok, ctx)
                     if fid and known.is_listed(kf, PID, fid):
                         known_hits.setdefault(fid, []).append(ex)
                         if verdict == "transport":
@@ -235,6 +261,16 @@ def execute(res, wd, fams, tier):
                         samples[key] = 1
                         res.sample({"op": u["op"], "args": inst["v"]["a"], "spec": inst["v"]["r"], "input_path": inst["path"],
                                     "interpreter": verdicts["interpreter"][1], "compiled": verdicts["compiled"][1]}, limit=12)
+    if frange_stuck:
+        interp_ok = outs.get(("frange", "interpreter")) is not None and not any(k[0] == "interpreter" and k[1] == "FRANGE" for k in bad)
+        n = sum(len(u["inst"]) for u in fams.get("frange", []))
+        if interp_ok:
+            known_hits.setdefault(K_FRANGE, []).append({"op": "FRANGE", "compiled": frange_stuck.strip()[:200], "vectors_in_the_program": n,
+                                                        "interpreter": "equals the specification on all of them",
+                                                        "program": dirs["frange"][1]})
+            res.count("instances_not_judged_compiled_float_range_did_not_stop", n)
+        else:
+            res.violations.append(("[compiled] the frange program did not finish: " + frange_stuck, dirs["frange"][1]))
     for (backend, op, arity, verdict), exs in sorted(bad.items()):
         d = os.path.join(wd, "violations"); os.makedirs(d, exist_ok=True)
         rp = os.path.join(d, "%s_%s_%d_%s.json" % (backend, op, arity, verdict.replace(" ", "_")))
@@ -271,7 +307,7 @@ def run_replay(res, wd, path):
         rp = json.load(f)
     if rp.get("kind") == "run":
         d = os.path.join(wd, "replay"); os.makedirs(d, exist_ok=True)
-        fam, backend, out, err = run_backend((rp["family"], rp["backend"], d, rp["dl"]))
+        fam, backend, out, err = run_backend((rp["family"], rp["backend"], d, rp["dl"], rp["facts"]))
         if err:
             res.violations.append((err, path))
         return finish(res, "model_checking")
